@@ -1,7 +1,7 @@
 (** Model of the mailbox-name handling of raven (property C11).
 
     Go code mirrored (pinned tree, bugs included):
-    - internal/server/connection.go  handleClient: [parts := strings.Fields(TrimSpace(line))],
+    - internal/server/connection.go  handleClient: [parts := utils.SplitCommandLine(TrimSpace(line))] (Model/CmdTokenizer.v),
       dispatch on [ToUpper(parts[1])];
     - internal/server/mailbox/mailbox.go  HandleCreate, HandleDelete, HandleRename,
       HandleSubscribe, HandleUnsubscribe, HandleList, HandleLsub, HandleStatus;
@@ -29,7 +29,7 @@
     the [%] branch of HandleLsub (implied parents); role mailboxes (the
     modelled user has none).  No proofs in this file. *)
 From Coq Require Import String Ascii List Bool Arith ZArith.
-From Raven Require Import Base.GoStr Base.GoStrOrder Model.Pattern.
+From Raven Require Import Base.GoStr Base.GoStrOrder Model.Pattern Model.CmdTokenizer.
 Import ListNotations.
 
 Definition dq : ascii := """"%char.
@@ -84,7 +84,7 @@ Definition is_role_namespace (n : str) : bool := str_eqb n (S_ "Roles") || has_p
 (** ---- CREATE ---- *)
 Definition handle_create (st : store) (parts : list str) : store * res :=
   if length parts <? 3 then (st, RBad) else
-  let name := trim (nth 2 parts []) [dq] in
+  let name := parse_quoted (nth 2 parts []) in
   let name := trim_suffix name [delim] in
   if is_nil name then (st, RNo)
   else if str_eqb (to_upper name) INBOX then (st, RNo)
@@ -113,7 +113,7 @@ Definition db_delete (bs : list mbox) (n : str) : list mbox * res :=
 
 Definition handle_delete (st : store) (parts : list str) : store * res :=
   if length parts <? 3 then (st, RBad) else
-  let name := trim (nth 2 parts []) [dq] in
+  let name := parse_quoted (nth 2 parts []) in
   if is_nil name then (st, RBad)
   else if str_eqb (to_upper name) INBOX then (st, RNo)
   else let '(bs, r) := db_delete (boxes st) name in (MkStore bs (subs st) (next_msg st), r).
@@ -183,46 +183,35 @@ Definition db_rename (bs : list mbox) (old new : str) : list mbox * res :=
 
 Definition handle_rename (st : store) (parts : list str) : store * res :=
   if length parts <? 4 then (st, RBad) else
-  let old := trim (nth 2 parts []) [dq] in
-  let new := trim (nth 3 parts []) [dq] in
+  let old := parse_quoted (nth 2 parts []) in
+  let new := parse_quoted (nth 3 parts []) in
   if is_nil old || is_nil new then (st, RBad)
   else if is_role_namespace new then (st, RNo)
   else let '(bs, r) := db_rename (boxes st) old new in (MkStore bs (subs st) (next_msg st), r).
 
 (** ---- SUBSCRIBE / UNSUBSCRIBE ---- *)
-(** [if len >= 2 && s[0] == '"' && s[len-1] == '"' { s = s[1:len-1] }]
-    (utils.ParseQuotedString computes the same function) *)
-Definition unquote1 (s : str) : str :=
-  match s with
-  | c :: s' => if Ascii.eqb c dq && (2 <=? length s) && Ascii.eqb (last s "a"%char) dq then removelast s' else s
-  | [] => []
-  end.
-Definition parse_quoted_string := unquote1.
-
+(** every handler takes its mailbox name with utils.ParseQuotedString ([parse_quoted],
+    Model/CmdTokenizer.v) since "fix: keep quoted strings whole when splitting a command line" *)
 Definition mem_str (n : str) (l : list str) : bool := existsb (str_eqb n) l.
 Definition sub_insert (l : list str) (n : str) : list str := if mem_str n l then l else l ++ [n].   (* INSERT OR IGNORE *)
 
 Definition handle_subscribe (st : store) (parts : list str) : store * res :=
   if length parts <? 3 then (st, RBad) else
-  let name := unquote1 (nth 2 parts []) in
+  let name := parse_quoted (nth 2 parts []) in
   if is_nil name then (st, RBad)
   else let name := normalize_name name in
        (MkStore (boxes st) (sub_insert (subs st) name) (next_msg st), ROk).
 
 Definition handle_unsubscribe (st : store) (parts : list str) : store * res :=
   if length parts <? 3 then (st, RBad) else
-  let name := unquote1 (nth 2 parts []) in
+  let name := parse_quoted (nth 2 parts []) in
   if is_nil name then (st, RBad)
   else let name := normalize_name name in
        if mem_str name (subs st)
        then (MkStore (boxes st) (filter (fun s => negb (str_eqb s name)) (subs st)) (next_msg st), ROk)
        else (st, RNo).
 
-(** utils.QuoteString (since "fix: LIST, LSUB and STATUS escape the mailbox name they
-    quote"): ReplaceAll(s, `\`, `\\`), then ReplaceAll(s, dquote, `\` dquote), wrapped in dquotes *)
-Definition bslash : ascii := "\"%char.
-Definition quote_string (s : str) : str :=
-  dq :: replace_byte (replace_byte s bslash [bslash; bslash]) dq [bslash; dq] ++ [dq].
+(** utils.QuoteString is [quote_string] of Model/CmdTokenizer.v *)
 
 (** ---- LIST / LSUB (patterns without the implied-parent branch); the third
     component is the list of mailbox-name tokens as written on the wire ---- *)
@@ -230,15 +219,15 @@ Definition default_subs : list str := [INBOX; S_ "Sent"; S_ "Drafts"; S_ "Trash"
 
 Definition handle_list (st : store) (parts : list str) : store * res * list str :=
   if length parts <? 4 then (st, RBad, []) else
-  let reference := parse_quoted_string (nth 2 parts []) in
-  let pattern := parse_quoted_string (nth 3 parts []) in
+  let reference := parse_quoted (nth 2 parts []) in
+  let pattern := parse_quoted (nth 3 parts []) in
   if is_nil pattern then (st, ROk, [])
   else (st, ROk, map quote_string (filter_mailboxes (names (boxes st)) reference pattern)).
 
 Definition handle_lsub (st : store) (parts : list str) : store * res * list str :=
   if length parts <? 4 then (st, RBad, []) else
-  let reference := parse_quoted_string (nth 2 parts []) in
-  let pattern := parse_quoted_string (nth 3 parts []) in
+  let reference := parse_quoted (nth 2 parts []) in
+  let pattern := parse_quoted (nth 3 parts []) in
   if is_nil pattern then (st, ROk, [])
   else
     (* an empty list is presented as the defaults, nothing is written; FilterMailboxes' INBOX
@@ -256,7 +245,7 @@ Definition status_items : list str :=
 
 Definition handle_status (st : store) (parts : list str) : store * res * list str :=
   if length parts <? 4 then (st, RBad, []) else
-  let name := parse_quoted_string (nth 2 parts []) in
+  let name := parse_quoted (nth 2 parts []) in
   if is_nil name then (st, RBad, [])
   else let name := normalize_name name in
        match find (fun b => str_eqb (mb_name b) name) (boxes st) with
@@ -273,7 +262,7 @@ Definition handle_status (st : store) (parts : list str) : store * res * list st
 (** ---- SELECT (name resolution) ---- *)
 Definition handle_select (st : store) (parts : list str) : store * res :=
   if length parts <? 3 then (st, RBad) else
-  let folder := trim (nth 2 parts []) [dq] in
+  let folder := parse_quoted (nth 2 parts []) in
   if has_prefix folder (S_ "Roles/") then (st, RNo)          (* role path: the modelled user has no role *)
   else let n := if equal_fold folder INBOX then INBOX else folder in
        if exists_box (boxes st) n then (st, ROk) else (st, RNo).
@@ -289,7 +278,7 @@ Definition add_link (b : mbox) (tok : Z) : mbox * bool :=
 
 Definition handle_append (st : store) (parts : list str) : store * res :=
   if length parts <? 3 then (st, RBad) else
-  let folder := normalize_name (trim (nth 2 parts []) [dq]) in
+  let folder := normalize_name (parse_quoted (nth 2 parts [])) in
   match find (fun b => str_eqb (mb_name b) folder) (boxes st) with
   | None => (st, RNo)
   | Some b =>
@@ -324,7 +313,7 @@ Definition render (c : cmd) : str :=
 
 Definition plain (x : store * res) : store * res * list str := (fst x, snd x, []).
 
-(** handleClient: TrimSpace, Fields, switch on ToUpper(parts[1]) *)
+(** handleClient: TrimSpace, utils.SplitCommandLine, switch on ToUpper(parts[1]) *)
 Definition dispatch (st : store) (parts : list str) : store * res * list str :=
   if length parts <? 2 then (st, RBad, []) else
   let c := to_upper (nth 1 parts []) in
@@ -341,7 +330,7 @@ Definition dispatch (st : store) (parts : list str) : store * res * list str :=
   else (st, RBad, []).
 
 Definition run_line (st : store) (line : str) : store * res * list str :=
-  dispatch st (fields (trim_space line)).
+  dispatch st (split_command_line (trim_space line)).
 Definition run_cmd (st : store) (c : cmd) : store * res * list str := run_line st (render c).
 
 (** a new user's store: db.createDefaultMailboxes *)
